@@ -456,6 +456,29 @@ impl Prop for C10 {
                 for c in [e.out.len() - 1, e.out.len() - 4, e.out.len() / 2, 40000.min(e.out.len() - 5)] {
                     self.probe(cx, &e.out[..c], true, "big-record", &mut st);
                 }
+                // the same stream with the payload of its biggest STRING record replaced by bytes that are not UTF-8 (Latin-1 text, 0x80, 0xFF):
+                // whatever the reader makes of them, a library it returns must be writable again (a decoded string may not outgrow a record)
+                let (mut pos, mut best) = (0usize, (0usize, 0usize));
+                while pos + 4 <= e.out.len() {
+                    let l = u16::from_be_bytes([e.out[pos], e.out[pos + 1]]) as usize;
+                    if l < 4 {
+                        break;
+                    }
+                    if e.out[pos + 3] == 0x06 && l > best.1 {
+                        best = (pos, l);
+                    }
+                    pos += l;
+                }
+                if best.1 > 1000 {
+                    for fill in [0xFFu8, 0x80, 0xE9] {
+                        let mut v = e.out.clone();
+                        for b in v[best.0 + 4..best.0 + best.1].iter_mut() {
+                            *b = fill;
+                        }
+                        self.probe(cx, &v, false, "big-record|non-utf8-string", &mut st);
+                        cx.count("big_records_with_non_utf8_payload");
+                    }
+                }
                 cx.sample(|| json!({"big_record_stream_bytes": e.out.len()}));
             }
             "faults-gen" => {
